@@ -75,7 +75,7 @@ DECLS = {
                     [OrderedDict, typing.OrderedDict]),
     "defaultDict": (defaultdict, "map", _p(lambda k, v: defaultdict[k, v], lambda k, v: typing.DefaultDict[k, v]),
                     [defaultdict, typing.DefaultDict]),
-    # unparametrised collections.abc classes that no predicate of Converter matches (finding F45)
+    # unparametrised collections.abc classes (matched by is_sequence / is_mutable_set since the repair of F45)
     "bareAbcSequence": (abc.Sequence, "seq", [], [abc.Sequence]),
     "bareAbcSet": (abc.Set, "set", [], [abc.Set]),
     "bareAbcMutSet": (abc.MutableSet, "set", [], [abc.MutableSet]),
@@ -132,7 +132,6 @@ class TagDict(dict):
 
 BUILTIN_TARGETS = {0: list, 1: tuple, 2: set, 3: frozenset, 4: dict}
 KEEP = object()      # rebuild the class of the value from the unstructured elements (BaseConverter)
-IDENTITY = object()  # no hook at all: the value is returned unchanged
 
 
 def target_of_id(n, pool):
@@ -227,7 +226,7 @@ RUNTIME_DECL = {list: "list", tuple: "homTuple", deque: "deque", set: "set", fro
 
 # ---- the documented encoding with pluggable container choice
 def encode(t, v, classes, choose, class_container):
-    """`choose(decl, het, value) -> callable | KEEP | IDENTITY`; `class_container(pairs) -> object` (pairs = [(field name, child)])"""
+    """`choose(decl, het, value) -> callable | KEEP`; `class_container(pairs) -> object` (pairs = [(field name, child)])"""
     k = t[0]
     if k == "leaf":
         return v.value if isinstance(v, enum.Enum) else v
@@ -242,8 +241,6 @@ def encode(t, v, classes, choose, class_container):
         else:
             xs = [encode_rt(e, classes, choose, class_container) for e in v]
         tgt = choose(t[1], False, v)
-        if tgt is IDENTITY:
-            return v
         return (type(v) if tgt is KEEP else tgt)(xs)
     if k == "het":
         xs = tuple(encode(tt, e, classes, choose, class_container) for tt, e in zip(t[2], v))
